@@ -64,7 +64,7 @@ var pathExprs = []exprSpec{
 }
 
 var placements = []string{"direct", "grouping-local", "grouping-remote", "augment-from-user", "augment-into-user", "typedef-remote", "submodule", "grouping-unused", "grouping-nested-remote",
-	"uses-when-remote", "refine-must-remote", "deviate-add-must", "augment-when-remote", "typedef-unused", "submodule-noimport"}
+	"uses-when-remote", "refine-must-remote", "deviate-add-must", "augment-when-remote", "typedef-unused", "submodule-noimport", "submodule-grouping-unused", "submodule-typedef-unused"}
 
 // carriers: must, when, leafref path, leafref path as a member of a union ("upath")
 var carriers = []string{"must", "when", "path", "upath"}
@@ -94,7 +94,7 @@ func genCase(t *rapid.T) Case {
 var companionPlacements = map[string]bool{"grouping-remote": true, "grouping-nested-remote": true, "typedef-remote": true}
 
 // placements that exist for one carrier only
-var onlyCarrier = map[string]string{"typedef-remote": "path", "typedef-unused": "path", "uses-when-remote": "when", "augment-when-remote": "when", "refine-must-remote": "must", "deviate-add-must": "must"}
+var onlyCarrier = map[string]string{"typedef-remote": "path", "typedef-unused": "path", "submodule-typedef-unused": "path", "uses-when-remote": "when", "augment-when-remote": "when", "refine-must-remote": "must", "deviate-add-must": "must"}
 
 const (
 	nsA = "urn:verif:ma"
@@ -211,6 +211,17 @@ func build(c Case) (mods []*sg.Mod, definer string, binds map[string]string, use
 		m1.Nodes[0].Kids = append(m1.Nodes[0].Kids, leaf("carrier"))
 		m2.Deviations = []*sg.Deviation{{Target: "/m1:m1-top/m1:carrier", Deviates: []sg.Deviate{{Kind: "add", Stmts: []string{"must " + sg.Quote(e) + ";"}}}}}
 		definer, binds = "m2", bindsM2
+	case "submodule-grouping-unused", "submodule-typedef-unused":
+		// a definition nobody uses, written in a submodule: its expressions are checked all the same
+		sub := &sg.Mod{Name: "m1-sub", Prefix: "m1", BelongsTo: "m1", Imports: []sg.Import{{Mod: "ma", Prefix: "x"}, {Mod: "mc", Prefix: "y"}}}
+		if c.Placement == "submodule-grouping-unused" {
+			sub.Groupings = []*sg.Grouping{{Name: "sg", Kids: []*sg.Node{cn}}}
+		} else {
+			sub.Typedefs = []*sg.Typedef{{Name: "st", Type: pathType(c, e)}}
+		}
+		m1.Includes = []string{"m1-sub"}
+		mods = append(mods, sub)
+		definer = "m1-sub"
 	case "submodule", "submodule-noimport":
 		// written in a submodule of M1 that has its own import binding and the belongs-to prefix m1; what the module
 		// itself (or another submodule included before) binds to the same prefixes must not matter
@@ -371,7 +382,7 @@ func checkCase(c Case) fw.Outcome {
 		}
 		return out
 	}
-	if c.Placement == "grouping-unused" || c.Placement == "typedef-unused" {
+	if strings.HasSuffix(c.Placement, "-unused") {
 		return out
 	}
 	// on success: every prefixed step carries the namespace bound in the DEFINING module
